@@ -11,6 +11,7 @@ package main
 //   direct <clause> <n> ok|FAIL ...
 
 import (
+	"os"
 	"fmt"
 	"io"
 	"strings"
@@ -521,6 +522,14 @@ func runC03(c *hx.Ctx) {
 	x.startWatchdog(40 * time.Second)
 	if c.Replay != "" {
 		x.replay(c.Replay)
+		return
+	}
+	if os.Getenv("STREAM_FAMILY") == "enc" {
+		// the sending side only (other properties that rest on "the wire is the concatenation of the packets in the
+		// order they were accepted": C15 runs this for the order of one sender's packets, seed C15-10)
+		x.encoderCases()
+		x.connCases()
+		x.gatedIntact()
 		return
 	}
 	x.decoderCases()
